@@ -33,8 +33,10 @@ class Closure:
 
 
 class Evaluator:
-    def __init__(self, hooks, globals_=None, ptr_lt=None):
-        """hooks: callee qualified name (or prefix ending in '*') -> fn(ev, obj, args)"""
+    def __init__(self, hooks, globals_=None, ptr_lt=None, prog=None):
+        """hooks: callee qualified name (or prefix ending in '*') -> fn(ev, obj, args).
+        With `prog`, calls to repository functions without a hook are interpreted from their bodies."""
+        self.prog = prog
         self.hooks = hooks
         self.globals = globals_ or {}
         self.ptr_lt = ptr_lt
@@ -57,6 +59,25 @@ class Evaluator:
         except Ret as r:
             return r.v
         return None
+
+    def construct(self, func, this, args):
+        """run a constructor: member initialisers (stored as attributes of `this`), then the body"""
+        env = {}
+        for p, a in zip(func["params"], args):
+            env[p["id"]] = a
+        for i in func.get("inits", []):
+            if i.get("field"):
+                v = self.eval(i["init"], env, this)
+                if isinstance(v, list) and len(v) == 1:
+                    v = v[0]
+                if hasattr(this, "on_store"):
+                    v = this.on_store(i["field"], v)
+                setattr(this, i["field"], v)
+        try:
+            self.block(func.get("body"), env, this)
+        except Ret:
+            pass
+        return this
 
     def call_closure(self, c, args):
         env = dict(c.env)
@@ -285,7 +306,7 @@ class Evaluator:
             raise Broken("comparator reads field %s of an object the domain does not model" % e["n"])
         if k == "cast":
             return self.eval(e["e"], env, this)
-        if k == "sizeof" and "iv" in e:
+        if k in ("sizeof", "other") and "iv" in e:
             return int(e["iv"])
         if k == "call":
             f = e.get("f", "")
@@ -317,6 +338,11 @@ class Evaluator:
                 a = self.eval(e["a"][0], env, this)
                 b = self.eval(e["a"][1], env, this)
                 return self.binop(e["op"], a, b)
+            if self.prog is not None and e.get("own") and e.get("fid") in self.prog.funcs:
+                callee = self.prog.funcs[e["fid"]]
+                obj = self.eval(e["obj"], env, this) if e.get("obj") is not None else None
+                args = [self.eval(a, env, this) for a in e.get("a", [])]
+                return self.call(callee, obj, args)
             raise Broken("comparator calls %s, for which the abstract domain has no summary (at %s)" % (f or e.get("fn"), e.get("l")))
         raise Broken("comparator uses an expression kind the evaluator does not model: %s" % k)
 
